@@ -2620,6 +2620,175 @@ def run_mixed(ctx, sc):
                       {'kind': 'mixed', 'name': name, 'scene': scene_json(sc), 'cmd': 'bin/check C15 --replay <this file>'})
 
 
+# ---------------------------------------------------------------- unit axis: several Quantity inputs
+def unit_entries(sc):
+    """entry points that take several data-like inputs: name -> (values of the inputs expressed in the unit of the
+    data, call(inputs) -> named outputs).  `data` is the primary input."""
+    from astropy.table import QTable
+    from photutils.aperture import ApertureStats, CircularAperture, aperture_photometry
+    from photutils.centroids import centroid_1dg, centroid_2dg
+    from photutils.detection import DAOStarFinder, IRAFStarFinder, StarFinder, find_peaks
+    from photutils.morphology import data_properties
+    from photutils.profiles import CurveOfGrowth, RadialProfile
+    from photutils.psf import CircularGaussianPRF, PSFPhotometry, fit_2dgaussian, fit_fwhm
+    from photutils.segmentation import SourceCatalog, SourceFinder, detect_sources, detect_threshold
+    from photutils.utils import calc_total_error
+    img, err, stars = sc['img'], sc['err'], sc['stars']
+    ap = CircularAperture([(s[0], s[1]) for s in stars], r=4.0)
+    segm = detect_sources(img, 60.0, 5)
+    x0, y0 = stars[0][:2]
+    xi, yi = int(x0), int(y0)
+    cut = (slice(yi - 6, yi + 7), slice(xi - 6, xi + 7))
+    yy, xx = np.mgrid[:img.shape[0], :img.shape[1]]
+    bkg = 15.0 + (xx // 3) + 2.0 * (yy // 5)
+    kern = np.ones((3, 3))
+    nst = len(stars)
+
+    def psf(i, fixed):
+        model = CircularGaussianPRF(flux=1, fwhm=4.0)
+        model.flux.fixed = fixed
+        t = QTable()
+        t['x'] = [s[0] for s in stars]
+        t['y'] = [s[1] for s in stars]
+        t['flux'] = i['flux']
+        t['local_bkg'] = i['local_bkg']
+        res = PSFPhotometry(model, (7, 7), aperture_radius=4.0)(i['data'], error=i['error'], init_params=t)
+        return _tbl(res, ['x_fit', 'y_fit', 'flux_fit', 'flux_init', 'local_bkg'])
+
+    def cat(i):
+        c = SourceCatalog(i['data'], segm, error=i['error'], background=i['background'],
+                          convolved_data=i['convolved_data'], localbkg_width=4)
+        return {k: getattr(c, k) for k in ('xcentroid', 'segment_flux', 'segment_fluxerr', 'kron_flux',
+                                           'kron_fluxerr', 'background_mean', 'local_background', 'max_value')}
+
+    def stats(i):
+        st = ApertureStats(i['data'], ap, error=i['error'], local_bkg=i['local_bkg'])
+        return {k: getattr(st, k) for k in ('sum', 'sum_err', 'mean', 'std', 'var', 'xcentroid')}
+
+    def rprof(i, cls, radii):
+        p = cls(i['data'], (x0, y0), radii, error=i['error'])
+        return {'profile': p.profile, 'profile_error': p.profile_error}
+    E = {
+        'aperture_photometry': ({'data': img, 'error': err},
+                                lambda i: _tbl(aperture_photometry(i['data'], ap, error=i['error']),
+                                               ['aperture_sum', 'aperture_sum_err'])),
+        'ApertureStats': ({'data': img, 'error': err, 'local_bkg': np.full(len(ap), 3.0)}, stats),
+        'SourceCatalog': ({'data': img, 'error': err, 'background': bkg, 'convolved_data': img}, cat),
+        'RadialProfile': ({'data': img, 'error': err}, lambda i: rprof(i, RadialProfile, np.arange(7))),
+        'CurveOfGrowth': ({'data': img, 'error': err}, lambda i: rprof(i, CurveOfGrowth, np.arange(1, 7))),
+        'detect_threshold': ({'data': img, 'background': np.full(img.shape, 30.0), 'error': err},
+                             lambda i: {'threshold': detect_threshold(i['data'], 2.0, background=i['background'],
+                                                                      error=i['error'])}),
+        'detect_sources': ({'data': img, 'threshold': np.full(img.shape, 60.0)},
+                           lambda i: {'segm': detect_sources(i['data'], i['threshold'], 5).data}),
+        'SourceFinder': ({'data': img, 'threshold': np.float64(60.0)},
+                         lambda i: {'segm': SourceFinder(5, progress_bar=False)(i['data'], i['threshold']).data}),
+        'find_peaks': ({'data': img, 'threshold': np.float64(80.0)},
+                       lambda i: _tbl(find_peaks(i['data'], i['threshold'], box_size=5))),
+        'DAOStarFinder': ({'data': img, 'threshold': np.float64(40.0), 'peakmax': np.float64(1e7)},
+                          lambda i: _tbl(DAOStarFinder(i['threshold'], 4.0, peakmax=i['peakmax'])(i['data']),
+                                         ['xcentroid', 'ycentroid', 'peak', 'flux'])),
+        'IRAFStarFinder': ({'data': img, 'threshold': np.float64(40.0)},
+                           lambda i: _tbl(IRAFStarFinder(i['threshold'], 4.0)(i['data']),
+                                          ['xcentroid', 'ycentroid', 'peak', 'flux'])),
+        'StarFinder': ({'data': img, 'threshold': np.float64(100.0)},
+                       lambda i: _tbl(StarFinder(i['threshold'], np.exp(-(np.mgrid[-4:5, -4:5] ** 2).sum(0) / 6.0))(
+                           i['data']), ['xcentroid', 'ycentroid', 'max_value', 'flux'])),
+        'data_properties': ({'data': img[cut], 'background': np.full(img[cut].shape, 20.0)},
+                            lambda i: {k: getattr(data_properties(i['data'], background=i['background']), k)
+                                       for k in ('xcentroid', 'segment_flux', 'background_mean')}),
+        'centroid_1dg': ({'data': img[cut], 'error': err[cut]},
+                         lambda i: {'xy': centroid_1dg(i['data'], error=i['error'])}),
+        'centroid_2dg': ({'data': img[cut], 'error': err[cut]},
+                         lambda i: {'xy': centroid_2dg(i['data'], error=i['error'])}),
+        'fit_fwhm': ({'data': img, 'error': err},
+                     lambda i: {'fwhm': fit_fwhm(i['data'], xypos=(x0, y0), fit_shape=7, error=i['error'])}),
+        'fit_2dgaussian': ({'data': img, 'error': err},
+                           lambda i: _tbl(fit_2dgaussian(i['data'], xypos=(x0, y0), fit_shape=7,
+                                                         error=i['error']).results, ['x_fit', 'flux_fit'])),
+        'PSFPhotometry': ({'data': img, 'error': err, 'flux': np.array([float(s[2]) * 20 for s in stars]),
+                           'local_bkg': np.full(nst, 4.0)}, lambda i: psf(i, False)),
+        'PSFPhotometry[flux fixed]': ({'data': img, 'error': err, 'flux': np.array([float(s[2]) * 20 for s in stars]),
+                                       'local_bkg': np.full(nst, 4.0)}, lambda i: psf(i, True)),
+        'calc_total_error': ({'data': img, 'bkg_error': err},
+                             lambda i: {'total': calc_total_error(
+                                 i['data'], i['bkg_error'],
+                                 2.0 * u.electron / UNIT if hasattr(i['data'], 'unit') else 2.0)}),
+    }
+    return E
+
+
+UNIT_KINDS = ('identical', 'scaled', 'absent', 'inconvertible')
+
+
+def _with_units(vals, scaled_name, kind):
+    """data and every secondary input in Jy, except `scaled_name` which is given in the unit kind under test"""
+    out = {}
+    for k, v in vals.items():
+        v = np.array(v, dtype=float)
+        if k != scaled_name or kind == 'identical':
+            out[k] = v * UNIT
+        elif kind == 'scaled':
+            out[k] = (v * 1000.0) * u.mJy
+        elif kind == 'absent':
+            out[k] = v
+        else:
+            out[k] = v * u.s
+    return out
+
+
+def _physical(g):
+    """a result as plain numbers in the unit system of the unit-less run (Jy = 1)"""
+    un = getattr(g, 'unit', None)
+    if un is None or not hasattr(g, 'to'):
+        return g
+    for p in (1, 2, -1, -2):
+        if un.is_equivalent(UNIT ** p):
+            return g.to(UNIT ** p).value
+    return g.value
+
+
+def unit_case(sc, name, sec, kind):
+    """-> (verdict, message): the unit-less float64 run defines the expected numbers"""
+    vals, call = unit_entries(sc)[name]
+    st0, r0 = _call(lambda d, e: call({k: np.array(v, dtype=float) for k, v in vals.items()}), None, None)
+    if st0 != 'ok':
+        return 'reference-fails', r0
+    st, r = _call(lambda d, e: call(_with_units(vals, sec, kind)), None, None)
+    if kind in ('absent', 'inconvertible'):
+        return ('ok', 'rejected') if st != 'ok' else (
+            'VIOLATION', f'{sec} {("without a unit" if kind == "absent" else "in an inconvertible unit (s)")} next to '
+                         f'data in Jy is accepted')
+    if st != 'ok':
+        if kind == 'scaled':
+            return 'ok', 'rejected'          # the documented "must all have the same units" error
+        return 'VIOLATION', f'all inputs in Jy: the call raises {r}'
+    tol = 'f32' if name.startswith(('PSFPhotometry', 'fit_', 'centroid_')) else 'ulp'
+    for k, a in r0.items():
+        if k not in r:
+            return 'VIOLATION', f'{k}: missing'
+        m = compare(a, _physical(r[k]), tol, floor=0.0 if tol == 'ulp' else 1.0)
+        if m:
+            return 'VIOLATION', (f'{sec} given in mJy (same physical values) next to data in Jy is accepted but the '
+                                 f'result is not the one of the unit-less run: {k}: {m}' if kind == 'scaled'
+                                 else f'all inputs in Jy: result differs from the unit-less run: {k}: {m}')
+    return 'ok', 'converted' if kind == 'scaled' else 'same'
+
+
+def run_unit_axis(ctx, sc):
+    for name, (vals, _) in unit_entries(sc).items():
+        for sec in [k for k in vals if k != 'data']:
+            for kind in UNIT_KINDS:
+                verdict, msg = unit_case(sc, name, sec, kind)
+                ctx.count_case(['units', name, sec, kind, sc['stars']])
+                ctx.support('unit_axis_cases', 1)
+                ctx.stat('unit_axis', f'{kind}:{verdict}' + (f':{msg}' if verdict == 'ok' else ''))
+                if verdict == 'VIOLATION':
+                    ctx.violation(f'{name}:units:{sec}={kind}', f'{name}: {msg}',
+                                  {'kind': 'units', 'entry': name, 'input': sec, 'unit_kind': kind,
+                                   'scene': scene_json(sc), 'cmd': 'bin/check C15 --replay <this file>'})
+
+
 def check_annotations(ctx, sc, reps):
     """the dtype annotations the extractor trusts (`known` in TARGETS), observed on real objects"""
     from photutils.aperture import ApertureStats, CircularAperture
@@ -3038,6 +3207,7 @@ def run(ctx):
             for e in ([-30, 30] if quick else [-30, -12, 12, 30]):
                 product_scaled(ctx, sc, name, e, found)
         run_nddata_units(ctx, sc)
+        run_unit_axis(ctx, sc)
     # ---- rejected obligations: a concrete failing input, or a no-failing-input-found report
     for tname, details in sorted(rejected.items()):
         entries = TARGET_ENTRIES.get(tname, [])
@@ -3098,6 +3268,11 @@ def replay(obj):
         c = _C()
         product_scaled(c, sc, r['entry'], r['exp'], {})
         ok = c.n == 0
+    elif kind == 'units':
+        sc = scene_from_json(r['scene'])
+        verdict, msg = unit_case(sc, r['entry'], r['input'], r['unit_kind'])
+        print(r['entry'], r['input'], r['unit_kind'], '->', verdict, msg)
+        ok = verdict != 'VIOLATION'
     elif kind == 'ndunits':
         sc = scene_from_json(r['scene'])
         verdict, msg = nddata_unit_case(sc, r['entry'], r['data_unit'], r['uncertainty_unit'])
